@@ -150,6 +150,11 @@ func (ip *IndexPos) Read(p []byte) (n int, err error) {
 		if len(ip.curChunk) == 0 {
 			err = ip.loadChunk()
 			if err != nil {
+				// An end-of-file from the store (a remote that went away) isn't the
+				// end of this stream, don't let it pass for a complete read
+				if err == io.EOF {
+					err = io.ErrUnexpectedEOF
+				}
 				break
 			}
 		}
